@@ -219,6 +219,12 @@ def labeler(name, arg, ids):
     if name == "falsy_mix":
         # falsy labels are labels: only None is dropped by ignore_none
         return lambda i, m: [0, "", [], None, "a", ()][(pos[i] + arg) % 6]
+    if name == "equal_types":
+        # python-equal values of different types are one label (one dict key); 0 / False / -0.0 are not None
+        return lambda i, m: [1, True, 1.0, 0, False, -0.0, 2, None][(pos[i] + arg) % 8]
+    if name == "array_label":
+        import numpy as np
+        return lambda i, m: np.array([i[0], i[-1]])
     if name == "nasty_label":
         # labels that become IDs: '%' forms, quotes, U+2028.., NFC/NFD twins as distinct labels
         return lambda i, m: arg[pos[i] % len(arg)]
@@ -231,7 +237,8 @@ def labeler(name, arg, ids):
 def gen_labeler(rng, ids, md, for_collapse):
     names = ["last_char", "const", "identity", "pos_mod", "pos_mod", "none_some", "long_label", "nasty_label"]
     if not for_collapse:
-        names += ["id_len", "list_of_id", "none_all", "mixed_list_tuple", "falsy_mix", "falsy_mix"]
+        names += ["id_len", "list_of_id", "none_all", "mixed_list_tuple", "falsy_mix", "falsy_mix", "equal_types",
+                  "array_label"]
     if md is not None:
         keys = set.intersection(*[set(m.keys()) for m in md]) if md else set()
         if "grp" in keys:
@@ -249,6 +256,8 @@ def gen_labeler(rng, ids, md, for_collapse):
         name, arg = n, rng.choice([2, 2, 3])
     elif n == "falsy_mix":
         name, arg = n, rng.randrange(6)
+    elif n == "equal_types":
+        name, arg = n, rng.randrange(8)
     elif n == "nasty_label":
         name, arg = n, rng.sample(core.NASTY_TEXTS + core.twin_ids(rng, 2), rng.choice([2, 3]))
     elif n == "none_some":
@@ -263,7 +272,9 @@ def label_json(v):
     if v is None:
         return None
     if isinstance(v, bool):
-        return {"s": "bool:%s" % v}
+        return {"i": int(v)}              # True == 1 == 1.0 are ONE dict key in Python: one group
+    if isinstance(v, float) and v == int(v):
+        return {"i": int(v)}              # 1.0, -0.0
     if isinstance(v, str):
         return {"s": v}
     if isinstance(v, int):
@@ -274,6 +285,10 @@ def label_json(v):
         return {"l": [str(x) for x in v]}
     try:
         import numpy as np
+        if isinstance(v, np.ndarray):
+            return {"l": [str(x) for x in v.tolist()]}     # unhashable like a list: tupled by the library
+        if isinstance(v, np.bool_):
+            return {"i": int(v)}
         if isinstance(v, np.str_):
             return {"s": str(v)}
         if isinstance(v, np.integer):
@@ -283,27 +298,48 @@ def label_json(v):
     return {"s": "?%r" % (v,)}
 
 
-def gen_dict_form(rng, ids):
-    """(python dict, JSON description) in one of the two accepted forms"""
+def gen_dict_form(rng, ids, other_ids=()):
+    """(python dict, JSON description) in one of the two accepted forms.  Group names come from several
+    namespaces: plain names, awkward texts, the IDs of this very axis (every group named after one of its
+    members / after a non-member, or only some groups), the IDs of the other axis"""
     if rng.random() < 0.06:
         return {}, {"kind": rng.choice(["id2grp", "grp2ids"]), "map": []}
     groups = ["ga", "gb", "gc"]
-    if rng.random() < 0.3:
+    ns = rng.random()
+    if ns < 0.2:
         groups = rng.sample(core.NASTY_TEXTS + core.twin_ids(rng, 2), 3)
+        naming = "awkward"
+    elif ns < 0.45 and ids:
+        groups = rng.sample(list(ids), min(3, len(ids)))            # EVERY group label is an ID of this axis
+        naming = "all-axis-ids"
+    elif ns < 0.55 and ids:
+        groups = [rng.choice(list(ids)), "gb", "gc"]                # only some are
+        rng.shuffle(groups)
+        naming = "some-axis-ids"
+    elif ns < 0.65 and other_ids:
+        groups = rng.sample(list(other_ids), min(3, len(other_ids)))
+        naming = "other-axis-ids"
+    else:
+        naming = "plain"
     pool = list(ids) + ["unknown-id"] + core.tricky_unknown_ids(ids)[:rng.randint(0, 3)]
     if rng.random() < 0.5:
         chosen = [i for i in pool if rng.random() < 0.7] or [pool[0]]
         rng.shuffle(chosen)
         d = {i: rng.choice(groups) for i in chosen}
-        return d, {"kind": "id2grp", "map": [[k, v] for k, v in d.items()]}
+        return d, {"kind": "id2grp", "map": [[k, v] for k, v in d.items()], "naming": naming}
     d = {}
-    gs = groups[:rng.randint(1, 3)]
+    gs = groups[:rng.randint(1, len(groups))]
     rng.shuffle(gs)
+    seeded = naming == "all-axis-ids" and rng.random() < 0.6
     for g in gs:
         members = [i for i in pool if rng.random() < 0.45]   # overlaps and empty groups happen
+        if seeded and g not in members:
+            members.append(g)                                # a cluster named after its representative member
         rng.shuffle(members)
+        if members and rng.random() < 0.25:
+            members.insert(rng.randrange(len(members) + 1), rng.choice(members))   # an ID named twice
         d[g] = tuple(members) if rng.random() < 0.3 else members
-    return d, {"kind": "grp2ids", "map": [[k, list(v)] for k, v in d.items()]}
+    return d, {"kind": "grp2ids", "map": [[k, list(v)] for k, v in d.items()], "naming": naming}
 
 
 # ----------------------------------------------------------------------------- the same argument object, used before
@@ -592,28 +628,55 @@ def profile(name):
             yield
 
 
-def run_real(t, axis, op, pyf, prof=None):
-    """run the real code; returns (outcome JSON, lookup pairs, live result tables)"""
+def spell(b, k):
+    """the same truth value in another spelling (flags are tested for truth, not identity)"""
+    import numpy as np
+    return ([True, 1, np.True_] if b else [False, 0, np.False_])[k % 3]
+
+
+def run_real(t, axis, op, pyf, prof=None, variant=None):
+    """run the real code; returns (outcome JSON, lookup pairs, live result tables).
+    variant: {"spell": k} other spellings of the flags, {"positional": True} every optional argument bound by
+    position, {"between": f} called while the partition generator is suspended between two parts"""
+    import numpy as np
     lookups, live = [], []
+    v = variant or {}
+    k = v.get("spell")
+    sp = (lambda b: spell(b, k)) if k is not None else (lambda b: b)
     try:
         with profile(prof):
             if op["op"] == "partition":
                 parts = []
-                for k, (lab, tab) in enumerate(t.partition(pyf, axis=axis, remove_empty=op["remove_empty"],
-                                                           ignore_none=op["ignore_none"])):
+                if v.get("positional"):
+                    gen = t.partition(pyf, axis, sp(op["remove_empty"]), sp(op["ignore_none"]))
+                else:
+                    gen = t.partition(pyf, axis=axis, remove_empty=sp(op["remove_empty"]),
+                                      ignore_none=sp(op["ignore_none"]))
+                for j, (lab, tab) in enumerate(gen):
                     live.append(tab)
-                    parts.append({"label": label_json(lab), "table": observe(tab, "part%d" % k, lookups)})
+                    parts.append({"label": label_json(lab), "table": observe(tab, "part%d" % j, lookups)})
+                    if v.get("between"):
+                        v["between"]()               # the generator is suspended: reads flip the source's layout
                 return {"parts": parts}, lookups, live
-            kw = {}
-            if op.get("collapse_f") == "explicit_sum":
-                kw["collapse_f"] = lambda tb, ax: tb.sum(ax)
+            cf = (lambda tb, ax: tb.sum(ax)) if op.get("collapse_f") == "explicit_sum" else None
+            mgs = op.get("min_group_size", 1)
+            if k is not None and k % 2:
+                mgs = np.int64(mgs)
             if op["op"] == "collapse":
-                c = t.collapse(pyf, norm=op["norm"], min_group_size=op["min_group_size"],
-                               include_collapsed_metadata=op["icm"], axis=axis, **kw)
+                if v.get("positional"):
+                    c = t.collapse(pyf, cf, sp(op["norm"]), mgs, sp(op["icm"]), sp(False), "add", "Path", sp(False), axis)
+                else:
+                    kw = {"collapse_f": cf} if cf is not None else {}
+                    c = t.collapse(pyf, norm=sp(op["norm"]), min_group_size=mgs,
+                                   include_collapsed_metadata=sp(op["icm"]), axis=axis, **kw)
             else:
-                c = t.collapse(pyf, norm=False, one_to_many=True, one_to_many_mode=op["mode"],
-                               strict=op["strict"], include_collapsed_metadata=op["icm"],
-                               one_to_many_md_key=op["md_key"], axis=axis)
+                if v.get("positional"):
+                    c = t.collapse(pyf, None, sp(False), 1, sp(op["icm"]), sp(True), op["mode"], op["md_key"],
+                                   sp(op["strict"]), axis)
+                else:
+                    c = t.collapse(pyf, norm=sp(False), one_to_many=sp(True), one_to_many_mode=op["mode"],
+                                   strict=sp(op["strict"]), include_collapsed_metadata=sp(op["icm"]),
+                                   one_to_many_md_key=op["md_key"], axis=axis)
         live.append(c)
         o = observe(c, "result", lookups)
         shape = [int(c.matrix_data.shape[0]), int(c.matrix_data.shape[1])]
@@ -686,8 +749,19 @@ def check(ctx, t, axis, op, pyf, tags, meta, nontrivial, rng=None, stress=True):
         elif c < 0.16:
             prof = "raise"
         alias = rng.random() < 0.12                                        # (vii)
+    variant = {}
+    if rng is not None and stress:
+        if rng.random() < 0.3:
+            variant["spell"] = rng.randrange(1, 6)         # 1 / 0 / np.True_ / np.False_ / np.int64 threshold
+            ctx.count("stress:flags_in_other_spelling")
+        if rng.random() < 0.25:
+            variant["positional"] = True
+            ctx.count("stress:optional_arguments_bound_by_position")
+        if op["op"] == "partition" and rng.random() < 0.3:
+            variant["between"] = lambda: core.poke_layout(t, rng, max_reads=1)
+            ctx.count("stress:partition_generator_suspended_while_layout_flips")
     tin = input_obs(t)
-    out, lookups, live = run_real(t, axis, op, pyf, None if prof == "raise" else prof)
+    out, lookups, live = run_real(t, axis, op, pyf, None if prof == "raise" else prof, variant)
     case = dict(op, axis=axis, table=tin, out=out, lookups=lookups)
     ctx.case({"op": op, "axis": axis, "table": tin}, nontrivial=nontrivial)
     r = ctx.driver.ask(case)
@@ -735,7 +809,7 @@ def check(ctx, t, axis, op, pyf, tags, meta, nontrivial, rng=None, stress=True):
         ctx.count("stress:receiver_reread")
     # (viii) empty='raise': the same outcome, or TableException exactly when an empty table would come out
     if prof == "raise":
-        out2, lk2, _ = run_real(t, axis, op, pyf, "raise")
+        out2, lk2, _ = run_real(t, axis, op, pyf, "raise", variant)
         want = {"error": "TableException"} if has_empty_table(out) else out
         if out2 != want or any(l["by_id"] is BROKEN for l in lk2):
             ctx.fail(replayable, "profile.raise", tags, detail={"under_raise": out2, "default": out})
@@ -772,8 +846,9 @@ def do_partition(ctx, rng, t, axis, tags, meta, wide=False):
     md = axis_md(t, axis)
     re_, ign = rng.random() < 0.35, rng.random() < 0.4
     if rng.random() < 0.25:
-        pyf, fj = gen_dict_form(rng, ids)
+        pyf, fj = gen_dict_form(rng, ids, [str(i) for i in t.ids(axis="observation" if axis == "sample" else "sample")])
         lab_kind = fj["kind"]
+        ctx.count("dict:%s,group_names=%s" % (fj["kind"], fj.get("naming")))
         if rng.random() < 0.5:
             reuse_dict(ctx, rng, t, axis, pyf, fj["kind"], ids)
     else:
@@ -821,8 +896,9 @@ def do_collapse(ctx, rng, t, axis, tags, meta, wide=False, mgs_override=None):
         mgs = mgs_override
     icm = rng.random() < 0.75
     if rng.random() < 0.2:
-        pyf, fj = gen_dict_form(rng, ids)
+        pyf, fj = gen_dict_form(rng, ids, [str(i) for i in t.ids(axis="observation" if axis == "sample" else "sample")])
         lab_kind = fj["kind"]
+        ctx.count("dict:%s,group_names=%s" % (fj["kind"], fj.get("naming")))
         if rng.random() < 0.5:
             reuse_dict(ctx, rng, t, axis, pyf, fj["kind"], ids)
     else:
